@@ -39,8 +39,10 @@ func cmdExplore(args []string) {
 	workers := fs.Int("workers", 8, "workers")
 	solver := fs.String("solver", "z3", "solver binary")
 	timeout := fs.Int("timeout", 20000, "per query timeout ms")
+	quick := fs.Int("quickms", 1500, "z3 budget before the cvc5 integer-mode fallback")
 	maxPaths := fs.Int("maxpaths", 0, "path budget")
 	verbose := fs.Bool("v", false, "print paths")
+	transcripts := fs.String("transcripts", "", "write solver transcripts with this path prefix")
 	var params multiFlag
 	fs.Var(&params, "p", "name=value harness parameter")
 	fs.Parse(args)
@@ -65,7 +67,7 @@ func cmdExplore(args []string) {
 		n, _ := strconv.Atoi(p[1])
 		pm[p[0]] = n
 	}
-	E := &Explorer{P: P, Run: &HarnessRun{Name: *harness, Fn: fn, Params: pm, MaxPaths: *maxPaths}, SolverBin: *solver, TimeoutMs: *timeout, Workers: *workers}
+	E := &Explorer{P: P, Run: &HarnessRun{Name: *harness, Fn: fn, Params: pm, MaxPaths: *maxPaths}, SolverBin: *solver, TimeoutMs: *timeout, Workers: *workers, Transcripts: *transcripts, QuickMs: *quick}
 	res := E.Explore()
 	fmt.Printf("load %.1fs explore %.1fs paths %d decisions %d queries %d (sat %d unsat %d unknown %d) solver %.1fs max %.2fs\n",
 		P.LoadTime.Seconds(), res.Wall.Seconds(), len(res.Paths), res.Decisions, res.Stats.Queries, res.Stats.Sat, res.Stats.Unsat, res.Stats.Unknown, res.Stats.Time.Seconds(), res.Stats.MaxQuery.Seconds())
